@@ -8,6 +8,7 @@ import (
 	"go/types"
 	"regexp"
 	"sort"
+	"strconv"
 	"strings"
 
 	"golang.org/x/tools/go/ssa"
@@ -38,15 +39,16 @@ type valInstr interface {
 }
 
 type chunkInfo struct {
-	fn     *ssa.Function
-	a      valInstr      // where the chunk is made in fn: the composite literal, or the call of a constructor helper
-	ctor   *ssa.Function // non-nil: made by this constructor helper (fields rewritten into fn's terms)
-	idx    int
-	id     string // canonical terms at the point where the chunk is complete
-	retID  string
-	stmts  string
-	idLoad *ssa.UnOp       // load of the counter that feeds the id (nil otherwise)
-	idDef  ssa.Instruction // reaching definition of that load
+	fn      *ssa.Function
+	a       valInstr      // where the chunk is made in fn: the composite literal, or the call of a constructor helper
+	ctor    *ssa.Function // non-nil: made by this constructor helper (fields rewritten into fn's terms)
+	ctorIdx int           // which result of the helper
+	idx     int
+	id      string // canonical terms at the point where the chunk is complete
+	retID   string
+	stmts   string
+	idLoad  *ssa.UnOp       // load of the counter that feeds the id (nil otherwise)
+	idDef   ssa.Instruction // reaching definition of that load
 }
 
 func (c *Ctx) chunkAllocs(fn *ssa.Function) []chunkInfo {
@@ -84,29 +86,78 @@ func (c *Ctx) chunkAllocs(fn *ssa.Function) []chunkInfo {
 			continue
 		}
 		res := g.Signature.Results()
-		if res.Len() != 1 || !typeIs(res.At(0).Type(), "emitter", "chunk") {
+		allChunks := res.Len() >= 1
+		for k := 0; k < res.Len(); k++ {
+			if !typeIs(res.At(k).Type(), "emitter", "chunk") {
+				allChunks = false
+			}
+		}
+		if !allChunks {
 			continue
 		}
 		chunkCtorBusy[g] = true
 		inner := c.chunkAllocs(g)
 		delete(chunkCtorBusy, g)
-		if len(inner) != 1 || inner[0].ctor != nil {
+		if len(inner) != res.Len() {
 			continue
 		}
-		returned := true
+		// result k is the same literal at every return
+		byRes := make([]*chunkInfo, res.Len())
+		okRes := true
 		for _, r := range returnsOf(g) {
-			if len(r.Results) != 1 || r.Results[0] != ssa.Value(inner[0].a) {
-				returned = false
+			for k, rv := range r.Results {
+				var hit *chunkInfo
+				for i := range inner {
+					if inner[i].ctor == nil && rv == ssa.Value(inner[i].a) {
+						hit = &inner[i]
+					}
+				}
+				if hit == nil || (byRes[k] != nil && byRes[k] != hit) {
+					okRes = false
+				} else {
+					byRes[k] = hit
+				}
 			}
 		}
-		if !returned {
+		if !okRes {
 			continue
 		}
-		ci := chunkInfo{fn: fn, a: call, ctor: g, idx: len(out)}
-		ci.id = c.term(fn, call) + ".id"
-		ci.retID = c.substParams(fn, call, inner[0].retID)
-		ci.stmts = c.substParams(fn, call, inner[0].stmts)
-		out = append(out, ci)
+		// the value each result has in fn
+		resVal := make([]valInstr, res.Len())
+		if res.Len() == 1 {
+			resVal[0] = call
+		} else if call.Referrers() != nil {
+			for _, r := range *call.Referrers() {
+				if ex, ok := r.(*ssa.Extract); ok && ex.Index < len(resVal) {
+					resVal[ex.Index] = ex
+				}
+			}
+		}
+		rewrite := func(t string) string {
+			// ids of sibling chunks made by the same call are spelled as fn sees them
+			for k, in := range byRes {
+				if in != nil && resVal[k] != nil && in.id != "" {
+					t = strings.ReplaceAll(t, in.id, "\x00"+strconv.Itoa(k)+"\x00")
+				}
+			}
+			t = c.substParams(fn, call, t)
+			for k := range byRes {
+				if resVal[k] != nil {
+					t = strings.ReplaceAll(t, "\x00"+strconv.Itoa(k)+"\x00", c.term(fn, resVal[k])+".id")
+				}
+			}
+			return t
+		}
+		for k, in := range byRes {
+			if in == nil || resVal[k] == nil {
+				continue
+			}
+			ci := chunkInfo{fn: fn, a: resVal[k], ctor: g, ctorIdx: k}
+			ci.id = c.term(fn, resVal[k]) + ".id"
+			ci.retID = rewrite(in.retID)
+			ci.stmts = rewrite(in.stmts)
+			out = append(out, ci)
+		}
 	}
 	sort.SliceStable(out, func(i, j int) bool { return out[i].a.Pos() < out[j].a.Pos() })
 	for i := range out {
@@ -255,6 +306,9 @@ func c01c(c *Ctx) {
 				// reaches the helper; here: it takes its id from a counter increment of its own
 				okC := false
 				for _, in := range c.chunkAllocs(ci.ctor) {
+					if in.ctor != nil {
+						continue
+					}
 					if in.idLoad != nil && counterIncrement(in.idDef) {
 						okC = true
 					}
